@@ -35,6 +35,7 @@ Definition dispatch (op : Z) (x : sx) : sx :=
   | 213 => C13.Run.run_encode_cat x
   | 313 => C13.Run.run_encode_nested x
   | 413 => C13.Run.run_encode_sparse x
+  | 513 => C13.Run.run_encode_inplace x
   | 14 => C14.Run.run x
   | 15 => C15.Run.run x
   | 16 => C16.Run.run x
